@@ -437,7 +437,7 @@ class BaseWorklist(list):
             ("dst_start", dst_start),
             ("dst_end", dst_end),
         ):
-            if not isinstance(pos, int) or isinstance(pos, bool) or pos < 0:
+            if not isinstance(pos, int) or isinstance(pos, bool) or pos < 1:
                 raise ValueError(f"Invalid {pname}: {pos}")
 
         for pname, count in (("diti_reuse", diti_reuse), ("multi_disp", multi_disp)):
